@@ -173,6 +173,7 @@ type ccase struct {
 	FlushMaxNum    int      `json:"flushMaxNum"`
 	FlushMaxWaitMs int      `json:"flushMaxWaitMs"`
 	TimeoutMs      int      `json:"timeoutMs"`
+	BigBodies      bool     `json:"bigBodies"`
 	Blocking       bool     `json:"blocking"`
 	Series         int      `json:"series"`
 	Points         []int    `json:"pointsPerSeries"`
@@ -194,6 +195,11 @@ func gen(seed uint64, idx int) *ccase {
 	c.FlushMaxNum = r.PickInt([]int{1, 2, 3, 5, 10, 10, 25, 50, 100})
 	c.FlushMaxWaitMs = r.PickInt([]int{5, 10, 20, 50, 100})
 	c.TimeoutMs = r.Range(100, 300)
+	// one case in six lets the endpoint send bodies of more than 1 MiB; moving them takes a loaded machine some
+	// 100 ms, so these cases get a client timeout that lets them through (and fewer hangs, which cost a timeout each)
+	if c.BigBodies = r.Chance(1, 6); c.BigBodies {
+		c.TimeoutMs = r.Range(1000, 2000)
+	}
 	switch r.Intn(4) {
 	case 0:
 		c.Series = r.Range(1, 3)
@@ -280,7 +286,10 @@ func gen(seed uint64, idx int) *ccase {
 		L = 90
 	}
 	pFail := r.PickInt([]int{30, 50, 70})
-	caps := &scriptCaps{}
+	caps := &scriptCaps{maxHangs: 5, maxSlow: 5}
+	if c.BigBodies {
+		caps.maxHangs, caps.maxSlow, caps.maxBig = 2, 2, 3
+	}
 	for i := 0; i < L; i++ {
 		o := genOutcome(r, r.Intn(100) < pFail, caps)
 		c.script = append(c.script, o)
@@ -291,12 +300,12 @@ func gen(seed uint64, idx int) *ccase {
 
 // scriptCaps bounds the costly entries of one script: every hang costs the case one client timeout, resets before
 // the request was read cannot be attributed to a batch (the streak cap does not see them), big bodies cost CPU.
-type scriptCaps struct{ hangs, slow, pre, big int }
+type scriptCaps struct{ hangs, slow, pre, big, maxHangs, maxSlow, maxBig int }
 
 var (
 	okStatus   = []int{200, 200, 200, 200, 200, 201, 202, 204}
 	failStatus = []int{400, 401, 403, 404, 413, 429, 429, 500, 500, 502, 502, 503, 503, 504}
-	padSizes   = []int{299, 300, 301, 1000, 5000, 70000, 1<<20 + 17}
+	padSizes   = []int{299, 300, 301, 1000, 5000, 70000, 1 << 20, 1<<20 + 1, 1<<20 + 17, 1<<20 + 70000}
 )
 
 // genOutcome draws what the endpoint does with one request: a failure (non-2xx complete or with a body that cannot
@@ -313,7 +322,7 @@ func genOutcome(r *mon.Rng, fail bool, caps *scriptCaps) outcome {
 			o.K = kResetBefore
 		}
 		if o.K == kHang {
-			if caps.hangs++; caps.hangs > 5 {
+			if caps.hangs++; caps.hangs > caps.maxHangs {
 				o.K = kRespond
 			}
 		}
@@ -337,9 +346,9 @@ func genOutcome(r *mon.Rng, fail bool, caps *scriptCaps) outcome {
 	}
 	if r.Chance(1, 5) {
 		o.Pad = r.PickInt(padSizes)
-		if o.Pad > 1<<20 {
-			if caps.big++; caps.big > 2 {
-				o.Pad = 5000
+		if o.Pad >= 1<<20 {
+			if caps.big++; caps.big > caps.maxBig {
+				o.Pad = []int{5000, 70000}[o.Pad&1]
 			}
 		}
 	}
@@ -353,12 +362,12 @@ func genOutcome(r *mon.Rng, fail bool, caps *scriptCaps) outcome {
 	if o.Frame != fEOF && r.Intn(100) < pCut {
 		o.Cut = cutKind(r.PickInt([]int{int(cShortFIN), int(cShortFIN), int(cShortFIN), int(cShortRST), int(cShortRST), int(cHangBody), int(cSlow)}))
 		if o.Cut == cHangBody {
-			if caps.hangs++; caps.hangs > 5 {
+			if caps.hangs++; caps.hangs > caps.maxHangs {
 				o.Cut = cShortFIN
 			}
 		}
 		if o.Cut == cSlow {
-			if caps.slow++; caps.slow > 5 {
+			if caps.slow++; caps.slow > caps.maxSlow {
 				o.Cut = cShortRST
 			}
 		}
@@ -368,8 +377,8 @@ func genOutcome(r *mon.Rng, fail bool, caps *scriptCaps) outcome {
 }
 
 func (c *ccase) brief() string {
-	return fmt.Sprintf("case %d conc=%d blocking=%v buf=%d(%s) flushMaxNum=%d flushMaxWait=%dms timeout=%dms series=%d total=%d dispatchers=%d pace=%d/%dus shutdown=%s script=%d",
-		c.Index, c.Concurrency, c.Blocking, c.BufSize, c.BufClass, c.FlushMaxNum, c.FlushMaxWaitMs, c.TimeoutMs, c.Series, c.Total, c.Dispatchers, c.PaceEvery, c.PaceUs, c.ShutdownMode, len(c.script))
+	return fmt.Sprintf("case %d conc=%d blocking=%v buf=%d(%s) flushMaxNum=%d flushMaxWait=%dms timeout=%dms big=%v series=%d total=%d dispatchers=%d pace=%d/%dus shutdown=%s script=%d",
+		c.Index, c.Concurrency, c.Blocking, c.BufSize, c.BufClass, c.FlushMaxNum, c.FlushMaxWaitMs, c.TimeoutMs, c.BigBodies, c.Series, c.Total, c.Dispatchers, c.PaceEvery, c.PaceUs, c.ShutdownMode, len(c.script))
 }
 
 // ---------------------------------------------------------------- server
@@ -386,6 +395,7 @@ type reqRec struct {
 	Ev      int64   // event number at the decision (global order of the server's decisions)
 	Out     outcome // what the server did
 	Forced  bool    // script said fail, streak cap forced 2xx
+	Wrote   bool    // the scripted response went out in full without a write error (set when the handler is done)
 	Pts     []pt
 	Err     string // decode problem
 	Foreign int
@@ -538,12 +548,13 @@ func responseBody(o outcome, npts int) []byte {
 }
 
 // respond sends the scripted response. Complete Content-Length / chunked responses go through net/http (the
-// connection stays reusable); everything else is written raw on the hijacked connection.
-func (s *server) respond(w http.ResponseWriter, o outcome, npts int) {
+// connection stays reusable); everything else is written raw on the hijacked connection. It reports whether all the
+// scripted bytes were written without an error (the client may have gone away: its timeout).
+func (s *server) respond(w http.ResponseWriter, o outcome, npts int) bool {
 	body := responseBody(o, npts)
 	if o.Status == 204 {
 		w.WriteHeader(204)
-		return
+		return true
 	}
 	ctype := "application/json"
 	if o.Body == bGarbage || o.Body == bErrPage {
@@ -554,18 +565,18 @@ func (s *server) respond(w http.ResponseWriter, o outcome, npts int) {
 		if o.Frame == fLength {
 			w.Header().Set("Content-Length", strconv.Itoa(len(body)))
 			w.WriteHeader(o.Status)
-			w.Write(body)
-			return
+			_, err := w.Write(body)
+			return err == nil
 		}
 		w.WriteHeader(o.Status)
-		w.Write(body[:len(body)/2])
+		_, err1 := w.Write(body[:len(body)/2])
 		w.(http.Flusher).Flush() // no Content-Length + flush: net/http switches to chunked
-		w.Write(body[len(body)/2:])
-		return
+		_, err2 := w.Write(body[len(body)/2:])
+		return err1 == nil && err2 == nil
 	}
 	conn, brw, ok := s.hijack(w)
 	if !ok {
-		return
+		return false
 	}
 	rst := false
 	defer func() { s.drop(conn, rst) }()
@@ -581,8 +592,7 @@ func (s *server) respond(w http.ResponseWriter, o outcome, npts int) {
 	}
 	if o.Cut == cNone { // fEOF: the body ends with the connection
 		brw.Write(body)
-		brw.Flush()
-		return
+		return brw.Flush() == nil
 	}
 	k := len(body) * o.Sent / 1000
 	if k >= len(body) {
@@ -620,13 +630,14 @@ func (s *server) respond(w http.ResponseWriter, o outcome, npts int) {
 	switch o.Cut {
 	case cShortFIN, cShortRST:
 		send(0, k, true)
-		brw.Flush()
 		rst = o.Cut == cShortRST
+		return brw.Flush() == nil
 	case cHangBody:
 		send(0, k, true)
-		brw.Flush()
+		err := brw.Flush()
 		s.waitPeerGone(conn, brw)
 		rst = true
+		return err == nil
 	case cSlow:
 		// whole chunks only here; whether the client sees the end before its timeout is up to the machine
 		step := (len(body)-k)/4 + 1
@@ -642,24 +653,24 @@ func (s *server) respond(w http.ResponseWriter, o outcome, npts int) {
 				send(from, to, false)
 			}
 			if brw.Flush() != nil {
-				return
+				return false
 			}
 			from = to
 			if from < len(body) {
 				select {
 				case <-time.After(time.Duration(s.c.TimeoutMs) * time.Millisecond / 10):
 				case <-s.stop:
-					return
+					return false
 				}
 			}
 		}
 		if o.Frame == fChunked {
 			fmt.Fprint(brw, "0\r\n\r\n")
-			brw.Flush()
 		}
+		return brw.Flush() == nil
 	}
+	return false
 }
-
 
 func (s *server) idleFor() time.Duration {
 	if atomic.LoadInt32(&s.inflight) > 0 {
@@ -815,7 +826,11 @@ func (s *server) handleMetrics(w http.ResponseWriter, r *http.Request) {
 
 	switch out.K {
 	case kRespond:
-		s.respond(w, out, len(pts))
+		if s.respond(w, out, len(pts)) {
+			s.mu.Lock()
+			rec.Wrote = true
+			s.mu.Unlock()
+		}
 	case kHang:
 		t := time.NewTimer(time.Duration(s.c.TimeoutMs)*4*time.Millisecond + time.Second)
 		select {
@@ -1467,12 +1482,15 @@ shutwait:
 			if r.Out.Pad >= 70000 {
 				st.add("posts_answered_oversized_body", 1)
 			}
-			if r.Out.Pad > 1<<20 {
+			if r.Out.Pad >= 1<<20 && r.Wrote && r.Out.Cut == cNone {
 				if r.Out.ack() {
-					st.add("posts_2xx_body_over_1MiB", 1)
+					st.add("posts_2xx_body_1MiB_or_more_written_in_full", 1)
 				} else {
-					st.add("posts_non2xx_body_over_1MiB", 1)
+					st.add("posts_non2xx_body_1MiB_or_more_written_in_full", 1)
 				}
+			}
+			if r.Wrote {
+				st.add("posts_response_written_as_scripted", 1)
 			}
 			if r.Out.bodyIncomplete() {
 				if r.Out.ack() {
@@ -1615,7 +1633,7 @@ func main() {
 		log.SetLevel(log.WarnLevel)
 	}
 	res := mon.NewResult("C17")
-	res.Rule = "cases from (seed,index): concurrency 1-8, blocking on/off, bufSize small (0-30 per shard) or large, flushMaxNum 1-100, flushMaxWait 5-100ms, timeout 100-300ms, errBackoffMin 1ms, 1-50 series x 20-2000 points (clipped to a batch budget) from 1-4 dispatcher goroutines (one goroutine per series), paced or flat out; a per-request fault script (30-70% failures: 4xx/5xx (400 401 403 404 413 429 500 502 503 504) with error page / garbage / json / empty body padded up to 1 MiB+17, framed by Content-Length, chunked or connection close, sent completely or (45%) cut: fewer bytes than declared then FIN or RST, also right behind the headers, silence in mid-body until the client timeout, trickling body; hang without headers; reset after / before reading the request. successes: 200 201 202 204 as json, json with invalid>0, garbage, empty, same framings and (15%) the same cuts) then healthy; Shutdown() called right after the last Dispatch, a few ms later, or after quiescence. non-trivial = at least one failed batch was observed being acknowledged later AND >= 2 kinds of failure were served; distinct = (concurrency, blocking, flushMaxNum, buffer class, failure kinds, drops counted, unacknowledged metrics pending at Shutdown, shutdown mode)"
+	res.Rule = "cases from (seed,index): concurrency 1-8, blocking on/off, bufSize small (0-30 per shard) or large, flushMaxNum 1-100, flushMaxWait 5-100ms, timeout 100-300ms (1-2s in the one case in six whose endpoint may send bodies of 1 MiB and more), errBackoffMin 1ms, 1-50 series x 20-2000 points (clipped to a batch budget) from 1-4 dispatcher goroutines (one goroutine per series), paced or flat out; a per-request fault script (30-70% failures: 4xx/5xx (400 401 403 404 413 429 500 502 503 504) with error page / garbage / json / empty body padded to 299..70000 bytes or 1 MiB .. 1 MiB+70000, framed by Content-Length, chunked or connection close, sent completely or (45%) cut: fewer bytes than declared then FIN or RST, also right behind the headers, silence in mid-body until the client timeout, trickling body; hang without headers; reset after / before reading the request. successes: 200 201 202 204 as json, json with invalid>0, garbage, empty, same framings and (15%) the same cuts) then healthy; Shutdown() called right after the last Dispatch, a few ms later, or after quiescence. non-trivial = at least one failed batch was observed being acknowledged later AND >= 2 kinds of failure were served; distinct = (concurrency, blocking, flushMaxNum, buffer class, failure kinds, drops counted, unacknowledged metrics pending at Shutdown, shutdown mode)"
 	res.Assume("a POST acknowledges exactly the points the harness server decoded from its body before it sent a 2xx status line: the status line is the acknowledgement, whatever the response body says and whether or not the body arrives completely (the property speaks of acknowledged POSTs, the body of a tsdb-gw reply only reports counts, and the route reads it only for logging); a client that loses a 2xx status line to a reset may retry, which only adds duplicates. Anything else - non-2xx with a complete, cut, hanging or oversized body, no response - is a failure and the batch must come again")
 	res.Assume("'accepted' = Dispatch returned and the route's queue_full counter did not move for it (exact per call with a single dispatcher, by totals otherwise)")
 	res.Assume("bounded liveness: retry-until-acknowledged is judged after the fault script is exhausted (<= 6 decoded failures per batch) and the endpoint saw no request for 2s + 10x(flushMaxWait+timeout)")
